@@ -277,7 +277,8 @@ def monitors(lines, feats, main=None):
             kind = t[1]
             prop = {'UseAfterDrop': 'C01', 'UseAfterFree': 'C01', 'DoubleDrop': 'C03', 'DoubleFree': 'C03',
                     'LayoutMismatch': 'C03', 'UninitDrop': 'C14', 'DanglingLink': 'C11', 'BufferLinks': 'C11',
-                    'HarnessCrashed': 'C01', 'HarnessThreadPanicked': 'C07'}.get(kind, 'C01')
+                    'HarnessCrashed': 'C01', 'HarnessThreadPanicked': 'C07',
+                    'FinalizeReachable': 'REACH', 'DropReachable': 'REACH'}.get(kind, 'C01')
             v.append((prop, l, n))
         elif t[0] == 'alloc':
             o = int(t[1]); allocs[o] = (int(t[2]), int(t[3])); live_bytes += int(t[2])
